@@ -667,6 +667,53 @@ def coarse_dedup_skips(fnode: ast.AST) -> List[Tuple[ast.AST, ast.For, str]]:
     return out
 
 
+def lost_updates(fnode: ast.AST) -> List[Tuple[ast.Assign, ast.For, str]]:
+    """``X = <computed from the loop element>`` inside a ``for`` loop where X is
+    not an operand of its own new value, is not read anywhere in the loop, the
+    loop has no break/return, and X is read after the loop: every iteration
+    overwrites the previous one, so only the last element's result survives
+    (an accumulation that forgot its accumulator).  Plain selections
+    (``X = elem``, ``X = True``) are not reported."""
+    out: List[Tuple[ast.Assign, ast.For, str]] = []
+    for lp in [n for n in _walk_same_function(fnode) if isinstance(n, ast.For)]:
+        if any(isinstance(x, (ast.Break, ast.Return)) for x in ast.walk(lp)):
+            continue
+        tvars = {x.id for x in ast.walk(lp.target) if isinstance(x, ast.Name)}
+        body_defs: Dict[str, List[ast.AST]] = {}
+        for x in ast.walk(lp):
+            if isinstance(x, ast.Assign) and len(x.targets) == 1 and isinstance(x.targets[0], ast.Name):
+                body_defs.setdefault(x.targets[0].id, []).append(x.value)
+
+        def depends(e: ast.AST, seen: Set[str]) -> bool:
+            for nm in load_names(e):
+                if nm in tvars:
+                    return True
+                if nm in body_defs and nm not in seen:
+                    seen.add(nm)
+                    if any(depends(v, seen) for v in body_defs[nm]):
+                        return True
+            return False
+        for st in [x for b_ in lp.body for x in ast.walk(b_)
+                   if isinstance(x, ast.Assign) and len(x.targets) == 1 and isinstance(x.targets[0], ast.Name)]:
+            nm = st.targets[0].id
+            inner = [p_ for p_ in parents(st, fnode) if isinstance(p_, (ast.For, ast.While))]
+            if not inner or inner[0] is not lp:
+                continue
+            if not isinstance(st.value, (ast.Call, ast.BinOp)) or nm in load_names(st.value):
+                continue
+            if not depends(st.value, {nm}):
+                continue
+            if any(isinstance(x, ast.Name) and isinstance(x.ctx, ast.Load) and x.id == nm for x in ast.walk(lp)):
+                continue
+            after = [x for x in _walk_same_function(fnode) if isinstance(x, ast.Name) and
+                     isinstance(x.ctx, ast.Load) and x.id == nm and _follows(lp, x, fnode) and
+                     any(d is st for d, _ in reaching_defs(nm, x, fnode))]
+            if not after:
+                continue
+            out.append((st, lp, nm))
+    return out
+
+
 def leftover_uses(fnode: ast.AST) -> List[Tuple[ast.Name, ast.For, str]]:
     """Reads, after a ``for`` loop has finished, of a name that only that loop
     assigns (its target or a local of its body): the value is whatever the
